@@ -23,11 +23,13 @@ Only3  == {"na", "list", "dict", "grid", "xstr"}
 RowPaths  == {"append", "insert", "extend", "iadd", "setitem",
               "extend_tuple", "extend_iter", "extend_grid", "iadd_grid",   \* the other argument forms of extend / +=
               "append_undeclared", "setitem_undeclared",                   \* the value sits under a key that is no column (yet)
+              "setslice_list", "setslice_iter", "setslice_grid", "setslice_gridslice",   \* g[a:b] = rows, in every form rows may take
               "copy_append", "copy_setitem"}                               \* the store goes to a deep copy of the grid
 MetaPaths == {"meta_set", "meta_append", "meta_extend", "colmeta_set", "colmeta_append", "col_assign", "col_add_item",
               "copy_meta_set", "copy_colmeta_set", "copy_col_assign",
               \* the column was handed over as a plain dict / a fresh metadata object first, the tag is stored afterwards
               "colmeta_set_assigned", "colmeta_set_assigned_mo", "colmeta_append_reassigned",
+              "colmeta_set_adopted",       \* ... or was taken over from a column of ANOTHER grid (a 3.0 one)
               "meta_overwrite", "colmeta_overwrite", "meta_update", "col_reassign"}   \* overwriting an existing tag / column
 CtorPaths == {"ctor_meta", "ctor_colmeta"}
 Paths == RowPaths \cup MetaPaths
